@@ -31,7 +31,9 @@ Clauses(o) ==
         (IF ~o.d1.sigma THEN <<C("NonSigmaException:to_dict")>>
          ELSE IF o.kind = "transformed" THEN <<>>                 \* fails rather than lies
          ELSE <<C("SerialisationOfLoadedObjectFails")>>)
-    ELSE IF ~o.reload.ok THEN <<C("DictNotLoadable")>>
+    \* (the misread value may no longer be admissible for the modifier chain - a wildcard under base64 -
+    \*  in which case the recorded deviation shows as a Sigma error on reload)
+    ELSE IF ~o.reload.ok THEN (IF o.reload.sigma /\ Fragile(o.doc) THEN <<D("Dev_PlainBackslashBeforeSpecial")>> ELSE <<C("DictNotLoadable")>>)
     ELSE IF ~o.d2.ok \/ o.d2.out # o.d1.out THEN (IF Fragile(o.doc) THEN <<D("Dev_PlainBackslashBeforeSpecial")>> ELSE <<C("DictStable")>>)
     ELSE IF ~o.d3.ok \/ o.d3.out # o.d1.out THEN <<C("DictStable:yaml")>>
     ELSE IF ~o.q2.ok THEN <<C("QueriesStable:reloaded-rule-fails")>>
